@@ -15,7 +15,7 @@ ASSUMPTIONS = ["fontTools cmap / post / CFF charset decompilers are the observat
 
 POOL = ["a", "b", "B", "A", "a.alt", "a_b", "Z", "z", "one", "one.sc", "_x", "x1", "x10", "x2", "Aacute", "f_f_i", "uni0041",
         "space", "nbspace", "dotlessi", "C", "c", "zero", "O", "o.ss01"]
-CPS = [0x20, 0x41, 0x42, 0x61, 0x62, 0xE9, 0x3B1, 0x5D0, 0x627, 0xFFFD, 0x1F600, 0x1F601, 0x2F800, 0x10000, 0xFFFF, 0x31]
+CPS = [0x0, 0xD, 0x20, 0x41, 0x42, 0x61, 0x62, 0xE9, 0x3B1, 0x5D0, 0x627, 0xFFFD, 0x1F600, 0x1F601, 0x2F800, 0x10000, 0xFFFF, 0x31]
 
 
 def design_checks(tier):
